@@ -164,6 +164,9 @@ func c16AddEntry(c *Ctx, sx *symx.Ctx, fn *ssa.Function) {
 
 		// version created by this store
 		vA := fmt.Sprintf("i%d.%d", ap.Block().Index, ssau.InstrIndex(ap))
+		// the size test, in any spelling: a branch whose true side is taken exactly
+		// when len(Entries) - MaxSize > 0 for the slice just appended to
+		// (len > Max; excess := len - Max; excess > 0; len - Max >= 1; ...)
 		var trimIf *ssa.If
 		var mLoad *ssa.UnOp
 		for _, iff := range ssau.Ifs(fn) {
@@ -171,22 +174,39 @@ func c16AddEntry(c *Ctx, sx *symx.Ctx, fn *ssa.Function) {
 			if !ok {
 				continue
 			}
-			if le, ok := lenOfEntries(y); ok {
+			if op == token.LSS || op == token.LEQ {
 				x, y, op = y, x, ssau.Flip(op)
-				_ = le
-			}
-			le, ok := lenOfEntries(x)
-			if !ok || f.Version(le) != vA {
-				continue
-			}
-			ml, ok := histFieldLoad(y, "MaxSize")
-			if !ok {
-				continue
 			}
 			if op != token.GTR && op != token.GEQ {
 				continue
 			}
-			trimIf, mLoad = iff, ml
+			d := linSub(linOf(f, x, 0), linOf(f, y, 0))
+			if !d.ok {
+				continue
+			}
+			if op == token.GEQ {
+				d.k++ // x >= y  <=>  x - y + 1 > 0
+			}
+			// d > 0 must read: len(Entries@vA) - MaxSize > 0
+			var le, ml *ssa.UnOp
+			good := d.k == 0 && len(d.terms) == 2
+			for a, cf := range d.terms {
+				v := d.vals[a]
+				if lc, isLen := v.(*ssa.Call); isLen && cf == 1 {
+					if l, ok := lenOfEntries(lc); ok && f.Version(l) == vA {
+						le = l
+						continue
+					}
+				}
+				if m, ok := histFieldLoad(v, "MaxSize"); ok && cf == -1 {
+					ml = m
+					continue
+				}
+				good = false
+			}
+			if good && le != nil && ml != nil {
+				trimIf, mLoad = iff, ml
+			}
 		}
 		if trimIf == nil {
 			r.Bad("O-1", key+":trim-test", c.P.Pos(ap.Pos()), "no test `len(Entries) > MaxSize` on the slice just appended to: the history can grow beyond its maximum")
@@ -218,8 +238,22 @@ func c16AddEntry(c *Ctx, sx *symx.Ctx, fn *ssa.Function) {
 		case f.Version(xl) != vA:
 			shape = "the resliced value is not the slice that was just appended to"
 		default:
-			want := "(" + "len(" + f.E(xl) + ") - " + f.E(mLoad) + ")"
-			if got := f.E(sl.Low); got != want {
+			// the lower bound equals len(Entries) - MaxSize on the same values as the test
+			d := linOf(f, sl.Low, 0)
+			good := d.ok && d.k == 0 && len(d.terms) == 2
+			for a, cf := range d.terms {
+				v := d.vals[a]
+				if lc, isLen := v.(*ssa.Call); isLen && cf == 1 {
+					if l, ok := lenOfEntries(lc); ok && f.Version(l) == vA {
+						continue
+					}
+				}
+				if _, ok := histFieldLoad(v, "MaxSize"); ok && cf == -1 && f.E(v) == f.E(mLoad) {
+					continue
+				}
+				good = false
+			}
+			if !good {
 				shape = "the lower bound is " + f.Plain(sl.Low) + ", want len(Entries)-MaxSize on the same values as the test"
 			}
 		}
@@ -227,9 +261,9 @@ func c16AddEntry(c *Ctx, sx *symx.Ctx, fn *ssa.Function) {
 
 		// O-2: MaxSize >= 0 at the trim
 		if sl.Low != nil {
-			if bo, ok := sl.Low.(*ssa.BinOp); ok && bo.Op == token.SUB {
+			if mLoad != nil {
 				q := interval.New(f)
-				iv := q.At(bo.Y, trim.Block())
+				iv := q.At(mLoad, trim.Block())
 				ok2 := iv.LoOK && iv.Lo >= 0
 				detail := "no guard or default establishes MaxSize >= 0 on every path to the reslice: a negative max_size decoded from the history file makes Entries[len-MaxSize:] panic on every later search"
 				if ok2 {
@@ -730,4 +764,70 @@ func appendedSingle(call *ssa.Call) ssa.Value {
 		return nil
 	}
 	return val
+}
+
+// linExpr is an integer expression as a linear combination of opaque atoms
+// (canonical renderings of non-arithmetic values) plus a constant.
+type linExpr struct {
+	terms map[string]int64
+	vals  map[string]ssa.Value
+	k     int64
+	ok    bool
+}
+
+// linOf normalises v through +, - and constants; locals defined by a single
+// expression are the expression (excess := len(x) - max).
+func linOf(f *symx.Fn, v ssa.Value, d int) linExpr {
+	out := linExpr{terms: map[string]int64{}, vals: map[string]ssa.Value{}, ok: true}
+	if d > 8 {
+		return linExpr{}
+	}
+	if c, ok := ssau.ConstInt(v); ok {
+		out.k = c
+		return out
+	}
+	if bo, ok := v.(*ssa.BinOp); ok && (bo.Op == token.ADD || bo.Op == token.SUB) {
+		a, b := linOf(f, bo.X, d+1), linOf(f, bo.Y, d+1)
+		if !a.ok || !b.ok {
+			return linExpr{}
+		}
+		if bo.Op == token.SUB {
+			return linSub(a, b)
+		}
+		for t, cf := range b.terms {
+			a.terms[t] += cf
+			a.vals[t] = b.vals[t]
+		}
+		a.k += b.k
+		return clean(a)
+	}
+	out.terms[f.E(v)] = 1
+	out.vals[f.E(v)] = v
+	return out
+}
+
+func linSub(a, b linExpr) linExpr {
+	if !a.ok || !b.ok {
+		return linExpr{}
+	}
+	out := linExpr{terms: map[string]int64{}, vals: map[string]ssa.Value{}, ok: true, k: a.k - b.k}
+	for t, cf := range a.terms {
+		out.terms[t] += cf
+		out.vals[t] = a.vals[t]
+	}
+	for t, cf := range b.terms {
+		out.terms[t] -= cf
+		out.vals[t] = b.vals[t]
+	}
+	return clean(out)
+}
+
+func clean(a linExpr) linExpr {
+	for t, cf := range a.terms {
+		if cf == 0 {
+			delete(a.terms, t)
+			delete(a.vals, t)
+		}
+	}
+	return a
 }
